@@ -27,8 +27,9 @@ CONSTANTS Sizes,      \* read sizes offered
           TruncBug    \* FALSE; TRUE (negative control): Restore truncates the byte counter to 32 bits before dividing
 
 VARIABLES gens,   \* sequence of generators
-          hist    \* operations with the prescribed result
-vars == <<gens, hist>>
+          hist,   \* operations with the prescribed result
+          stored  \* states returned by Store() and kept by the caller: values, restored at any later time
+vars == <<gens, hist, stored>>
 
 \* positions are kept as (block, offset) pairs: byte counts beyond 2^31 do not fit TLC's integers.
 \* cb, co: the byte counter of the Go code (bytesCounter = 64*cb + co); blk, off: the position of the ChaCha20 cipher
@@ -36,13 +37,14 @@ Gen(cb, co, blk, off) == [cb |-> cb, co |-> co, blk |-> blk, off |-> off]
 Pos(b, o) == [b |-> b, o |-> o]
 Adv(b, o, k) == Pos(b + (o + k) \div 64, (o + k) % 64)
 
-Init == gens = <<Gen(0, 0, 0, 0)>> /\ hist = <<>>
+Init == gens = <<Gen(0, 0, 0, 0)>> /\ hist = <<>> /\ stored = <<>>
 
 Read(i, k) ==
   /\ i \in 1..Len(gens)
   /\ LET g == gens[i]  c == Adv(g.cb, g.co, k)  p == Adv(g.blk, g.off, k) IN
      /\ gens' = [gens EXCEPT ![i] = Gen(c.b, c.o, p.b, p.o)]
      /\ hist' = Append(hist, [op |-> "read", g |-> i, k |-> k, from |-> Pos(g.blk, g.off), path |-> IF k <= 64 THEN "zero-message" ELSE "in-place"])
+     /\ UNCHANGED stored
 
 \* RestoreChacha20PRG on a state whose byte counter is 64*cb + co (:171-212): block counter = bytes / 64, discard bytes % 64
 Restored(cb, co) == Gen(cb, co, IF TruncBug THEN cb % 67108864 ELSE cb, co)
@@ -52,6 +54,19 @@ Fork(i) ==
   /\ i \in 1..Len(gens) /\ Len(gens) < MaxGens
   /\ gens' = Append(gens, Restored(gens[i].cb, gens[i].co))
   /\ hist' = Append(hist, [op |-> "fork", g |-> i, k |-> 0, from |-> Pos(gens[i].cb, gens[i].co), path |-> "restore"])
+  /\ UNCHANGED stored
+
+\* Store() of generator i, the state kept for later; RestoreChacha20PRG of a kept state, whatever its generator did since
+Keep(i) ==
+  /\ i \in 1..Len(gens) /\ Len(stored) < 3
+  /\ stored' = Append(stored, Pos(gens[i].cb, gens[i].co))
+  /\ hist' = Append(hist, [op |-> "store", g |-> i, k |-> Len(stored) + 1, from |-> Pos(gens[i].cb, gens[i].co), path |-> "-"])
+  /\ UNCHANGED gens
+Resume(k) ==
+  /\ k \in 1..Len(stored) /\ Len(gens) < MaxGens
+  /\ gens' = Append(gens, Restored(stored[k].b, stored[k].o))
+  /\ hist' = Append(hist, [op |-> "restore", g |-> 0, k |-> k, from |-> stored[k], path |-> "restore"])
+  /\ UNCHANGED stored
 
 \* a state crafted by hand (seed || customizer || counter) and restored: replaces generator 1
 FarBlocks == {67108863, 67108864, 67108865, 1073741831,      \* 2^26 - 1, 2^26, 2^26 + 1 (byte offsets around 2^32), 2^30 + 7
@@ -60,6 +75,7 @@ Craft(b, o) ==
   /\ Len(hist) = 0
   /\ gens' = <<Restored(b, o)>>
   /\ hist' = Append(hist, [op |-> "craft", g |-> 1, k |-> 0, from |-> Pos(b, o), path |-> "restore"])
+  /\ UNCHANGED stored
 
 Allowed(op, i, k) ==
   CASE Pattern = "free" -> TRUE
@@ -76,6 +92,8 @@ Next ==
   \/ /\ Len(hist) < MaxOps
      /\ \/ \E i \in 1..Len(gens), k \in ReadSizes : Allowed("read", i, k) /\ Read(i, k)
         \/ \E i \in 1..Len(gens) : Allowed("fork", i, 0) /\ Fork(i)
+        \/ (Pattern \in {"free", "far"} /\ Len(hist) > 0 /\ \E i \in 1..Len(gens) : Keep(i))
+        \/ (Pattern \in {"free", "far"} /\ \E k \in 1..Len(stored) : Resume(k))
         \/ (Pattern = "far" /\ \E b \in FarBlocks, o \in {0, 1, 63} : Craft(b, o))
   \/ (Len(hist) = MaxOps /\ UNCHANGED vars)
 Spec == Init /\ [][Next]_vars
@@ -91,7 +109,8 @@ Tiles(i, k, pos) ==   \* scanning hist from entry k: the next read of generator 
        THEN hist[k].from = pos /\ Tiles(i, k + 1, Adv(pos.b, pos.o, hist[k].k))
        ELSE Tiles(i, k + 1, pos)
 \* index in hist of the fork that created generator i (i >= 2): the (i-1)-th fork
-ForkIdx(i) == CHOOSE k \in 1..Len(hist) : hist[k].op = "fork" /\ Cardinality({j \in 1..k : hist[j].op = "fork"}) = i - 1
+Creates(e) == e.op \in {"fork", "restore"}
+ForkIdx(i) == CHOOSE k \in 1..Len(hist) : Creates(hist[k]) /\ Cardinality({j \in 1..k : Creates(hist[j])}) = i - 1
 RestoreResumes == \A i \in 1..Len(gens) :
                     IF i = 1 THEN (IF Len(hist) > 0 /\ hist[1].op = "craft" THEN Tiles(1, 2, hist[1].from) ELSE Tiles(1, 1, Pos(0, 0)))
                     ELSE Tiles(i, ForkIdx(i) + 1, hist[ForkIdx(i)].from)
